@@ -23,7 +23,7 @@ def instances():
     def masks(r):
         allS, allD = (True,) * r, (False,) * r
         mixA = tuple(k % 2 == 0 for k in range(r)); mixB = tuple(k % 2 == 1 for k in range(r))
-        return [(allS, allD), (allD, allS), (allS, allS), (mixA, mixB), (mixB, mixA), (mixA, allS)]
+        return [(allS, allD), (allD, allS), (allS, allS), (mixA, mixB), (mixB, mixA), (mixA, allS), (mixA, mixA), (mixB, mixB)]      # incl. the SAME mixed pattern on both sides
     for (t, u) in [('i32', 'i32'), ('u8', 'i32'), ('i64', 'u16')]:
         for r in (1, 2, 3):
             combos = [(sh, m) for sh in SHAPES[r] for m in masks(r)]
@@ -31,8 +31,10 @@ def instances():
                 for (dk, dsp) in LAYS2:
                     if (t, u) == ('i64', 'u16') and (sk, dk) not in (('left', 'left'), ('right', 'stride'), ('stride', 'left'), ('lpad', 'lpad'), ('rpad', 'right'), ('left', 'lpad')): continue
                     h = int(hashlib.sha256(repr((t, u, r, sk, ssp, dk, dsp)).encode()).hexdigest(), 16)
-                    for q in range(2):
-                        sh, (ms, md_) = combos[(h + q * 5) % len(combos)]
+                    picks = [combos[(h + q * 5) % len(combos)] for q in range(2)]
+                    if sk == dk and ssp == dsp and t == u:      # the same mapping type on both sides: comparisons of two values of ONE type
+                        picks += [(sh_, m_) for sh_ in SHAPES[r][:1] for m_ in masks(r)[-2:]]
+                    for sh, (ms, md_) in picks:
                         spat = tuple(e if m else None for e, m in zip(sh, ms)); dpat = tuple(e if m else None for e, m in zip(sh, md_))
                         if not mandates_ok(sk, ssp, dk, dsp, r, spat, dpat): continue
                         out.append((sk, ssp, t, dk, dsp, u, r, spat, dpat))
